@@ -8,8 +8,8 @@ import Nstd.Rc.Total
 -/
 namespace Nstd.Rc
 
-theorem astep_owner_other {s s' : St} {tid2 x : Nat} {a : Act} (hs : astep s tid2 a = some s') (hx : s.owner x ≠ tid2) :
-    s'.owner x = s.owner x := by
+theorem astep_owner_other {s s' : St} {tid2 x : Nat} {a : Act} (hs : astep s tid2 a = some s') (hx : s.owner x ≠ tid2)
+    (hlow : x < embBase) : s'.owner x = s.owner x := by
   cases a
   case give v t' =>
     simp only [astep] at hs
@@ -18,6 +18,15 @@ theorem astep_owner_other {s s' : St} {tid2 x : Nat} {a : Act} (hs : astep s tid
     case isTrue hc =>
       cases hs
       have : x ≠ v := by intro e; subst e; exact hx hc.2.1
+      exact upd_other _ _ _ _ this
+  case adoptF c k =>
+    -- the releasing thread adopts a handle embedded in the dying payload: never a top-level slot
+    simp only [astep] at hs
+    split at hs
+    case isFalse => cases hs
+    case isTrue hc =>
+      cases hs
+      have : x ≠ embSlotK c k := by simp only [embSlotK]; omega
       exact upd_other _ _ _ _ this
   all_goals (
     simp only [astep] at hs <;> (repeat' split at hs) <;>
@@ -33,16 +42,16 @@ theorem conc_frame {s s' : St} {tid tid2 : Nat} {A : Abs} {a : Act} (hc : Conc s
   have hown : ∀ x, A.mine x = true → s.owner x ≠ tid2 := by
     intro x hx e; rw [hc.own x hx] at e; exact hne e.symm
   refine ⟨⟨inv_astep hc.inv hs, ?_, hc.low, ?_, ?_⟩, astep_n hs⟩
-  · intro x hx; rw [astep_owner_other hs (hown x hx)]; exact hc.own x hx
+  · intro x hx; rw [astep_owner_other hs (hown x hx) (hc.low x hx)]; exact hc.own x hx
   · rw [astep_pc_other hs (Ne.symm hne)]; exact hc.ph
   · intro x hx
     have hmx : A.mine x = true → s'.slots x = s.slots x := by
       intro hm
       have hlow := hc.low x hm
-      rcases astep_slots_other hs (hown x hm) with e | ⟨_, c, _, _, e⟩ | ⟨_, c, _, e⟩
+      rcases astep_slots_other hs (hown x hm) with e | ⟨_, c, _, _, _, e⟩ | ⟨_, c, _, _, e⟩
       · exact e
-      · simp only [embSlot] at e; omega
-      · simp only [embSlot] at e; omega
+      · simp only [embSlotK] at e; omega
+      · simp only [embSlotK] at e; omega
     rw [hmx (hem x hx)]; exact hc.emp x hx
 
 theorem absStep_empMine {n : Nat} {A A' : Abs} {a : Act} (hem : ∀ x, x ∈ A.empty → A.mine x = true)
